@@ -171,6 +171,9 @@ WFTop(t, ms, mx) ==
           /\ t.t = "vm"  => VmOK(t.k[1]) /\ t.k[2] = Perturb(t.k[1])
           /\ t.t = "ixa" => IxaOK(ms[1]) /\ ~HasSw(t.k[1])
           /\ t.t = "set" => t.p # <<>> /\ ~SwVm(t.k[1])
+          \* a Switch object emptied by filter / get_submap stays in the real structure (it is not static_is_empty) but has
+          \* no entry in the model: keep every switch visible, so that the scope rules for index steps can see it
+          /\ HasSw(t) => DOMAIN mx # {}
           /\ MapOK(mx)
 RECURSIVE WFT(_)
 WFT(t) == /\ \A i \in 1..Len(t.k) : WFT(t.k[i])
@@ -231,8 +234,10 @@ InitAtoms == (IF Level = 0 THEN {TEmp, TEnt(<<"a">>, 1), TEnt(<<"b">>, 2), TEnt(
               ELSE {TEmp} \cup {TEnt(p, v) : p \in EntPathsL, v \in {1, 2, 3}})
              \cup {TDm(TEnt(<<"a">>, 1), TEnt(<<"b", "a">>, 2)), TDm(TEnt(<<"a">>, 1), TEnt(<<"a">>, 2))}
 Partners  == IF Level = 0 THEN {TEnt(<<"a">>, 3), TEnt(<<"b">>, 1), TEnt(<<"a", "b">>, 3), TEnt(<<"b", "a">>, 3)}
-             ELSE InitAtoms \cup {TEnt(<<"a">>, 3), TExt("0", TEnt(<<"a">>, 3)), TVm(TEnt(<<"a">>, 3), TEnt(<<"a">>, 1))}
-FltIdx == IF Level = 0 THEN {3, 6, 7, 8} ELSE 1..Len(SelCat)
+             ELSE {TEnt(<<"a">>, 3), TEnt(<<"b">>, 1), TEnt(<<"a", "b">>, 3), TEnt(<<"b", "a">>, 3), TEnt(<<>>, 3),
+                   TExt("0", TEnt(<<"a">>, 3)), TVm(TEnt(<<"a">>, 3), TEnt(<<"a">>, 1)),
+                   TDm(TEnt(<<"a">>, 1), TEnt(<<"a">>, 2))}
+FltIdx == IF Level = 0 THEN {3, 6, 7, 8} ELSE {1, 2, 3, 5, 6, 7, 8, 9, 10}
 IxaIdx == IF Level = 0 THEN {2, 3} ELSE 1..Len(JS)
 ExtC == {"a", "b", "0", "1"}
 SubC == {"a", "b", "0", "1"}
